@@ -58,6 +58,9 @@ TRANSFORMS = [
     ("inout_embedded_clobber", ["--transform", "fcv-tr clobber if=$IN of=$OUT"]),
     ("in_nocopy_keep", ["--transform", "fcv-tr keep $IN", "--no-copy"]),
     ("inout_nocopy_keep", ["--transform", "fcv-tr keep $IN $OUT", "--no-copy"]),
+    # a program that leaves a second file next to the (private) input it was given
+    ("in_litter", ["--transform", "fcv-tr litter $IN"]),
+    ("inout_litter", ["--transform", "fcv-tr litter $IN $OUT"]),
     ("inplace_nocopy_noop", ["--transform", "fcv-tr-inplace noop $IN", "--in-place", "--no-copy"]),
 ]
 DRY_OPTS = [[], ["-n", "2"], ["--priority", "newest"], ["--name", "f*"], ["--keep-name", "f1"], ["--priority", "top", "--no-lock"]]
@@ -77,7 +80,7 @@ def cases(tier, seed):
                 for outmode in ("stdout", "file"):
                     for fmt in ("default", "json"):
                         i += 1
-                        if quick and (i % 4) and tname not in ("inplace_nocopy_noop", "in_embedded_garbage", "inplace_embedded_garbage",
+                        if quick and (i % 4) and tname not in ("inplace_nocopy_noop", "in_litter", "inout_litter", "in_embedded_garbage", "inplace_embedded_garbage",
                                                                 "inout_clobber", "in_clobber", "inplace_garbage"):
                             continue
                         out.append({"kind": "group", "tree": t, "transform": tname, "targs": targs, "cache": cache,
